@@ -463,6 +463,9 @@ func xmlUnmarshal(b []byte, v any) error { return xmlStdUnmarshal(b, v) }
 func init() { Registry["C18"] = runC18 }
 
 func runC18(ctx Ctx) int {
+	if rc, ok := concDispatch("C18", ctx); ok {
+		return rc
+	}
 	world.PinClock()
 	run := ev.NewRun("C18")
 	run.Rule = "A (codec): every byte string of length <= 5 (quick) / <= 6 (thorough) over {00,01,'a','<',7F,80,FF} and sizes 2^k and 2^k+-1 up to 1 MiB of zero / incompressible content through DeflateAndBase64 then InflateAndDecode(DEFLATE); 10 encoding identifiers that are not the DEFLATE URI must be errors; Marshal results must not be disturbed by later Marshal calls. B (messages): 6 emission scenarios (Success response POST/Redirect, SSO failure response, LogoutResponse, SOAP response, metadata) x every outside-influenced string field x 16 legal symbols (exact recovery by the library's own decoders and the harness tree) and 9 illegal-character symbols (element/attribute skeleton equal to the all-plain baseline), one field (quick) / two fields (thorough) at a time; every emitted document is additionally parsed by python3's expat in one batch"
@@ -664,6 +667,13 @@ func runC18(ctx Ctx) int {
 	run.Sample(items[0].c)
 	run.Sample(items[len(items)/2].c)
 	run.Sample(map[string]any{"codec_input_hex": fmt.Sprintf("%x", inputs[100])})
+	{
+		cb, cs := 1, 90
+		if ev.Tier() == "thorough" {
+			cb, cs = 2, 1200
+		}
+		runConc(run, "C18", cb, cs)
+	}
 	finishCapped(run, c1 && c2, fmt.Sprintf("codec: %d inputs (all strings of length <= %d over 7 bytes + 2^k+-1 ladder to 1 MiB); messages: %d emissions, %d distinct documents re-parsed by expat", len(inputs), maxLen, len(items), nDocs))
 	return run.Finish()
 }
